@@ -20,6 +20,7 @@ import (
 
 	"Havoc/pkg/agent"
 	"Havoc/pkg/handlers"
+	"Havoc/pkg/packager"
 	"Havoc/pkg/profile"
 
 	"github.com/gin-gonic/gin"
@@ -33,8 +34,23 @@ func init() { commands["C12"] = runC12 }
 type c12World struct {
 	ts   *mockts.TS
 	h    *handlers.HTTP
+	real *realWorld // the listener was added by an operator's request to a real Teamserver
 	port int
 	next uint32
+}
+
+func (w *c12World) agentCount() int {
+	if w.real != nil {
+		return len(w.real.ts.Agents.Agents)
+	}
+	return len(w.ts.Agents)
+}
+
+func (w *c12World) lastExternalIP() string {
+	if w.real != nil {
+		return w.real.ts.Agents.Agents[len(w.real.ts.Agents.Agents)-1].Info.ExternalIP
+	}
+	return w.ts.Agents[len(w.ts.Agents)-1].Info.ExternalIP
 }
 
 func freePort() int {
@@ -63,6 +79,10 @@ func (w *c12World) stop() {
 		w.h.Server.Close()
 	}
 	w.h = nil
+	if w.real != nil {
+		w.real.close()
+		w.real = nil
+	}
 }
 
 func (w *c12World) line(c *Ctx, in string) {
@@ -72,8 +92,53 @@ func (w *c12World) line(c *Ctx, in string) {
 	case "reset":
 		w.stop()
 		c.Emit("reset")
-	case "listener": // listener <uris> <headers> <ua> <respheaders> <redir 0|1>     lists: comma separated hex items, "-" = none
+	case "listener": // listener <uris> <headers> <ua> <respheaders> <redir 0|1> [op]    lists: comma separated hex items, "-" = none
 		w.stop()
+		if len(parts) > 6 && parts[6] == "op" {
+			// added the way an operator does: a Listener/Add request to a real Teamserver (lists travel as ", "-joined text)
+			rw := newRealWorld("c12op")
+			rw.ts.Profile.Config.Demon = &profile.Demon{TrustXForwardedFor: parts[5] == "1"}
+			w.port = freePort()
+			var pk packager.Package
+			pk.Head.Event = packager.Type.Listener.Type
+			pk.Head.User = "alice"
+			pk.Body.SubEvent = packager.Type.Listener.Add
+			uris := splitList(parts[1])
+			if parts[1] == "e" {
+				uris = nil
+			}
+			pk.Body.Info = map[string]any{"Name": "l", "Protocol": "Http", "Hosts": "127.0.0.1", "HostBind": "", "HostRotation": "round-robin",
+				"PortBind": strconv.Itoa(w.port), "PortConn": strconv.Itoa(w.port), "Headers": strings.Join(splitList(parts[2]), ", "),
+				"Uris": strings.Join(uris, ", "), "HostHeader": "", "UserAgent": string(unhx(parts[3])), "Secure": "false"}
+			out := guardT(ms(8000), func() string { rw.ts.DispatchEvent(pk); return "ok" })
+			var h *handlers.HTTP
+			for _, l := range rw.ts.Listeners {
+				if hh, ok := l.Config.(*handlers.HTTP); ok {
+					h = hh
+				}
+			}
+			if out != "ok" || h == nil {
+				rw.close()
+				c.Emit("%s => NOLISTEN", in)
+				return
+			}
+			w.h, w.real = h, rw
+			ok := false
+			for i := 0; i < 200 && !ok; i++ {
+				if cn, err := net.DialTimeout("tcp", fmt.Sprintf("127.0.0.1:%d", w.port), ms(50)); err == nil {
+					cn.Close()
+					ok = true
+				} else {
+					time.Sleep(ms(5))
+				}
+			}
+			if !ok {
+				c.Emit("%s => NOLISTEN", in)
+				return
+			}
+			c.Emit("%s", in)
+			return
+		}
 		w.ts = mockts.New()
 		h := handlers.NewConfigHttp()
 		h.Teamserver = w.ts
@@ -188,7 +253,7 @@ func (w *c12World) line(c *Ctx, in string) {
 		if _, ok := rq.Header["User-Agent"]; !ok {
 			rq.Header["User-Agent"] = []string{""} // suppress Go's default UA
 		}
-		before := len(w.ts.Agents)
+		before := w.agentCount()
 		cl := &http.Client{Timeout: 5 * time.Second, Transport: &http.Transport{DisableKeepAlives: true}}
 		resp, err := cl.Do(rq)
 		if err != nil {
@@ -207,9 +272,9 @@ func (w *c12World) line(c *Ctx, in string) {
 			class = "reply"
 		}
 		reached, ext := "0", "-"
-		if len(w.ts.Agents) > before {
+		if w.agentCount() > before {
 			reached = "1"
-			ext = hx([]byte(w.ts.Agents[len(w.ts.Agents)-1].Info.ExternalIP))
+			ext = hx([]byte(w.lastExternalIP()))
 		}
 		var hs []string
 		for k, vs := range resp.Header {
@@ -256,8 +321,8 @@ func runC12(c *Ctx) {
 		return
 	}
 	r := c.R
-	uriPool := []string{"/api/v1", "/index.php", "/a%20b", "/x?y=1", "/"}
-	hdrPool := []string{"X-Token: secret", "X-Multi: a: b", "Accept-Encoding: gzip", "Connection: close", "X-Case: MiXeD", "X-Colon: k:v", "Cookie: a=b; c=d", "NoSpace:here", "X-Empty: "}
+	uriPool := []string{"/api/v1", "/index.php", "/a%20b", "/x?y=1", "/", "/feed/2024,10/items", "/a,b"}
+	hdrPool := []string{"X-Token: secret", "X-Multi: a: b", "Accept-Encoding: gzip", "Connection: close", "X-Case: MiXeD", "X-Colon: k:v", "Cookie: a=b; c=d", "NoSpace:here", "X-Empty: ", "Accept-Language: en-US,en;q=0.9", "X-List: a,b,c"}
 	respPool := []string{"Server: Apache", "Location: http://x.example/p?a=b", "X-Time: 12:30:45", "Cache-Control: no-cache", "X-Trim:   padded  ", "Set-Cookie: a=b; Path=/", "Broken"}
 	for _, redir := range []string{"0", "1"} { // through a real Teamserver: started, edited 0-2 times, then a registration with a forwarded-for header
 		for _, edits := range []int{0, 1, 2} {
@@ -297,13 +362,28 @@ func runC12(c *Ctx) {
 		}
 		c.Count("listener")
 		w.line(c, "reset")
-		w.line(c, fmt.Sprintf("listener %s %s %s %s %s", us, hxList(hdrs), hx([]byte(ua)), hxList(resp), redir))
+		viaOp := us != "e" && r.Chance(1, 4)
+		for _, x := range append(append([]string{}, uris...), hdrs...) {
+			if strings.Contains(x, ", ") || x == "" {
+				viaOp = false // the operator's request joins list items with ", ": such an item cannot be said that way
+			}
+		}
+		if viaOp {
+			c.Count("listener.operator")
+			resp = nil
+			w.line(c, fmt.Sprintf("listener %s %s %s - %s op", us, hxList(hdrs), hx([]byte(ua)), redir))
+		} else {
+			w.line(c, fmt.Sprintf("listener %s %s %s %s %s", us, hxList(hdrs), hx([]byte(ua)), hxList(resp), redir))
+		}
 		nreq := 8 + r.Intn(10)
 		for q := 0; q < nreq; q++ {
 			method := gen.Pick(r, []string{"POST", "POST", "POST", "POST", "POST", "GET", "PUT", "HEAD", "OPTIONS", "DELETE", "PATCH", "post"})
 			uri := gen.Pick(r, uriPool)
 			if len(uris) > 0 && uris[0] != "" && r.Chance(3, 5) {
 				uri = gen.Pick(r, uris)
+			}
+			if strings.Contains(uri, ",") && r.Chance(1, 3) {
+				uri = strings.SplitN(uri, ",", 2)[0] // a configured path cut at its comma is another path
 			}
 			if r.Chance(1, 8) {
 				uri += "?q=1"
@@ -329,6 +409,8 @@ func runC12(c *Ctx) {
 					val = strings.ToUpper(val)
 				case 4:
 					name = strings.ToLower(name)
+				case 5:
+					val = strings.SplitN(val, ",", 2)[0] // only what stands before the first comma
 				}
 				hs = append(hs, hx([]byte(name))+"="+hx([]byte(val)))
 			}
